@@ -478,6 +478,20 @@ func TestVerifC10(t *testing.T) {
 		emit("C-degenerate", vfObserveReassembly(b, []vfPoolFrag{{vfHandFragment(b, 0, 4), "s"}, {b, "s"}, {vfHandFragment(b, 4, 5), "s"}}))
 	}
 
+	// (D) pieces that end beyond the total length they announce: [0,a) and [a,T) of a T-byte payload, both announcing
+	// T' with a < T' < T. They tile more than T' bytes; no bundle has such fragments, and the set has to be refused.
+	for _, T := range []int{6, 9, 17} {
+		b, _ := specs[1].build(r.bytes(T))
+		for a := 1; a < T-1; a++ {
+			for tp := a + 1; tp < T; tp++ {
+				f1, f2 := vfHandFragment(b, 0, a), vfHandFragment(b, a, T-a)
+				f1.PrimaryBlock.TotalDataLength, f2.PrimaryBlock.TotalDataLength = uint64(tp), uint64(tp)
+				emit("D-beyond-total", vfObserveReassembly(b, []vfPoolFrag{{f1, "x"}, {f2, "x"}}))
+				emit("D-beyond-total", vfObserveReassembly(b, []vfPoolFrag{{f2, "x"}, {f1, "x"}}))
+			}
+		}
+	}
+
 	var keys []string
 	for k, v := range count {
 		keys = append(keys, fmt.Sprintf("%s=%d", k, v))
